@@ -20,9 +20,9 @@ func init() { Runners["C10"] = runC10 }
 // c10Cases: the (schema, document) pairs of a run, deterministic in the seed; biased to invalid
 // documents and to unknown names with several equally distant candidates.
 func c10Cases(c *core.Ctx) []VCase {
-	nSchemas, per := 15, 20
+	nSchemas, per := 60, 30
 	if !c.Quick {
-		nSchemas, per = 120, 40
+		nSchemas, per = 600, 40
 	}
 	cases := GenValidationCases(c, nSchemas, per, nil)
 	// equidistant suggestion candidates: type names Aab, Aac, Aad, ...; field names likewise
